@@ -57,8 +57,10 @@ class Family:
             t = lsl.Var(f32(start["t"]), name="t")
             a = lsl.Var(f32(start["a"]), lsl.Dist(tfd.Normal, loc=f32(1.0), scale=lsl.Calc(jnp.sqrt, t)), name="a")
             b = lsl.Var(f32(start["b"]), lsl.Dist(tfd.Normal, loc=f32(-0.5), scale=f32(1.0)), name="b")
+            # a derived quantity that is not on the way to the log-probability (something a user tracks)
+            dv = lsl.Var(lsl.Calc(lambda x: jnp.exp(0.5 * x), a), name="d")
             gb = lsl.GraphBuilder()
-            gb.add(a, b)
+            gb.add(a, b, dv)
             model = gb.build_model()
             if name.endswith("_noauto"):
                 # the documented switch for setting several values at once, flipped by the user before the interface is made
@@ -78,6 +80,14 @@ class Family:
         if self.name == "dataclass":
             return {k: fstr(np.asarray(getattr(st, k))) for k in F}
         return {k: fstr(np.asarray(st[f"{k}_value"].value)) for k in F}
+
+    def derived_fresh(self, st):
+        """Liesel families: the derived quantity of the state is the one of the state's own parameter, and up to date."""
+        if self.name in ("dict", "dataclass"):
+            return True
+        a, dn = np.float32(np.asarray(st["a_value"].value)), st["d_value"]
+        want = np.asarray(jnp.exp(0.5 * jnp.asarray(a, jnp.float32)))
+        return bool(not dn.outdated and np.allclose(np.asarray(dn.value), want, rtol=1e-6, atol=0.0))
 
 
 FAMILIES = ("dict", "dataclass", "liesel", "liesel_noauto", "goose", "goose_noauto")
@@ -115,7 +125,8 @@ def trace(seed, family, nsteps=14):
         ev.append({"ev": "mh", "block": list(block), "cur": fstr(exact(cur)), "prop": fstr(exact(prop)),
                    "corr": fstr(np.float32(corr)), "code": int(info.error_code), "acc": fstr(np.asarray(info.acceptance_prob)),
                    "moved": bool(info.position_moved), "in": before, "pos": {k: fstr(v) for k, v in pos.items()},
-                   "out": fam.read(new), "in_after": fam.read(state), "advanced": False})
+                   "out": fam.read(new), "in_after": fam.read(state), "advanced": False,
+                   "derived_fresh": fam.derived_fresh(new)})
         # every other step goes on from the returned state; otherwise the same state object is used again
         if rng.random() < 0.5:
             state = new
